@@ -260,6 +260,21 @@ def known_findings(prop_id):
     return [f for f in data.get("findings", []) if f["property"] == prop_id]
 
 
+def replay_finding_scripts(rep, prop_id):
+    """Every finding of this property that carries a witness script is replayed on /repo:
+    known + still failing -> KNOWN-FINDING line; fixed + failing again -> VIOLATION (the defect has returned)."""
+    for f in known_findings(prop_id):
+        w = f.get("witness")
+        if not isinstance(w, dict) or "script" not in w:
+            continue
+        out = run_impl("script_impl.py", {"script": w["script"]})
+        if f["status"] == "known":
+            if out["failed"]:
+                rep.known(f["name"], f["what"][:200])
+        elif out["failed"]:
+            rep.violation({"kind": "a defect recorded as fixed has returned: " + f["name"], "script": w["script"], "message": out["msg"], "finding": f})
+
+
 def canon_hash(obj):
     return hashlib.sha256(json.dumps(obj, sort_keys=True, default=str).encode()).hexdigest()[:16]
 
